@@ -144,6 +144,25 @@ theorem forward_seg_dropped (net : Net) (owner : Nat → Nat) (active : Nat → 
             (by simp at hf; omega) ⟨x, hx, hxa⟩
           exact ⟨y, t', by simp [forward, nextHop, h1, hg, hy]⟩
 
+/-- once the wiring no longer changes, the time-indexed walk is the walk on that wiring -/
+theorem forwardT_stable (netAt : Nat → Net) (net : Net) (owner : Nat → Nat) (active : Nat → Nat → Bool)
+    (sender : Nat) : ∀ (fuel g : Nat) (came : Bool) (t : Nat) (last : Option Nat),
+    (∀ t', t ≤ t' → netAt t' = net) →
+    forwardT netAt owner active sender fuel g came t last = forward net owner active sender fuel g came t last := by
+  intro fuel
+  induction fuel with
+  | zero => intro g came t last _; rfl
+  | succ fuel ih =>
+    intro g came t last hst
+    simp only [forwardT, forward, hst t (Nat.le_refl t)]
+    cases nextHop net g came with
+    | none => rfl
+    | some next =>
+      simp only []
+      split
+      · rfl
+      · exact ih _ _ _ _ (fun t' ht' => hst t' (by omega))
+
 theorem seg_append (net : Net) : ∀ (h1 : List Conn) (g : Nat) (came c1 : Bool) (h2 : List Conn) (c2 : Bool),
     Seg net g came h1 c1 → Seg net (lastGate g h1) c1 h2 c2 → Seg net g came (h1 ++ h2) c2 := by
   intro h1
